@@ -21,6 +21,7 @@ import EG.Model.RoundedRect
 import EG.Model.ThickLine
 import EG.Model.ThickPolyline
 import EG.Model.ThickTriangle
+import EG.Model.Triangle
 import EG.Model.StyledArc
 import EG.Model.StyledSector
 namespace EG.Driver
@@ -35,6 +36,9 @@ structure StyledView where
   bbox : Unit → Option Rect           -- `bounding_box()` of the styled shape
   fa : Option Rect := none            -- `fill_area().bounding_box()` (closed shapes only)
   sa : Option Rect := none            -- `stroke_area().bounding_box()` (closed shapes only)
+  npoints : Unit → Nat                -- number of items of `points()` of the (unstyled) primitive
+  pbox : Rect                         -- `bounding_box()` of the (unstyled) primitive
+  contains : Option (Pt → Bool) := none   -- `ContainsPoint::contains` of the primitive, where it has one
 
 private def parseOptColor (s : String) : Option Color := if s == "-" then none else some (parseNat s)
 
@@ -53,7 +57,10 @@ private def rectView (s : Style) (r : Rect) : StyledView :=
     pixels := fun _ => some (StyledRect.pixelsList s r)
     bbox := fun _ => some (StyledRect.styledBoundingBox s r)
     fa := some (StyledRect.fillArea s r)
-    sa := some (StyledRect.strokeArea s r) }
+    sa := some (StyledRect.strokeArea s r)
+    npoints := fun _ => r.points.length
+    pbox := r
+    contains := some r.contains }
 
 private def primStyle (s : Style) : PrimStyle := ⟨s.fill, s.stroke, s.width, s.align⟩
 
@@ -63,7 +70,10 @@ private def circleView (s : Style) (c : Circle) : StyledView :=
     pixels := fun _ => some (c.styledPixels st)
     bbox := fun _ => some (c.styledBoundingBox st)
     fa := some (c.fillArea st).boundingBox
-    sa := some (c.strokeArea st).boundingBox }
+    sa := some (c.strokeArea st).boundingBox
+    npoints := fun _ => c.points.length
+    pbox := c.boundingBox
+    contains := some c.contains }
 
 private def ellipseView (s : Style) (e : Ellipse) : StyledView :=
   let st := primStyle s
@@ -71,14 +81,20 @@ private def ellipseView (s : Style) (e : Ellipse) : StyledView :=
     pixels := fun _ => some (e.styledPixels st)
     bbox := fun _ => some (e.styledBoundingBox st)
     fa := some (e.fillArea st).boundingBox
-    sa := some (e.strokeArea st).boundingBox }
+    sa := some (e.strokeArea st).boundingBox
+    npoints := fun _ => e.points.length
+    pbox := e.boundingBox
+    contains := some e.contains }
 
 private def rrectView (s : Style) (r : RoundedRect) : StyledView :=
   { calls := fun _ => some (r.drawStyled s)
     pixels := fun _ => some (r.styledPixels s)
     bbox := fun _ => some (r.styledBoundingBox s)
     fa := some (r.fillArea s).boundingBox
-    sa := some (r.strokeArea s).boundingBox }
+    sa := some (r.strokeArea s).boundingBox
+    npoints := fun _ => r.points.length
+    pbox := r.boundingBox
+    contains := some r.contains }
 
 /-! ### lines, polylines, triangles (every stroke width)
 
@@ -105,7 +121,9 @@ stroke width only (not at the colour). -/
 private def lineView (s : Style) (l : Line) : StyledView :=
   { calls := fun _ => (lineStyledPixels l s.width s.stroke).map (fun px => [Call.drawIter px])
     pixels := fun _ => lineStyledPixels l s.width s.stroke
-    bbox := fun _ => Thick.styledBoundingBox l s.width }
+    bbox := fun _ => Thick.styledBoundingBox l s.width
+    npoints := fun _ => (Line.points l).length
+    pbox := Rect.withCorners l.start l.stop }
 
 /-- `polyCalls` of Lemmas/C01ThickPoly.lean. -/
 private def polyDrawCalls (c : Color) : Joins.PolyDraw → List Call
@@ -126,19 +144,26 @@ private def polyView (s : Style) (pl : Polyline) : StyledView :=
       match s.stroke with
       | none => some []
       | some c => (Joins.pixels pl s.width).map (·.map (fun p => (p, c)))
-    bbox := fun _ => Joins.styledBoundingBox pl (if s.stroke.isSome then s.width else 0) }
+    bbox := fun _ => Joins.styledBoundingBox pl (if s.stroke.isSome then s.width else 0)
+    npoints := fun _ => (Polyline.points pl).length
+    pbox := Joins.polylineBoundingBox pl }
 
 private def triAlignOf : StrokeAlignment → Joins.StrokeAlignment
   | .inside => .inside
   | .center => .center
   | .outside => .outside
 
-/-- `triangle.into_styled(style)`: one `fill_solid` per non-empty coloured scanline (`solidCalls`). -/
+/-- `triangle.into_styled(style)`: one `fill_solid` per non-empty coloured scanline (`solidCalls`).
+`points()` / `contains()` / `bounding_box()` of the unstyled triangle come from `EG.Model.Triangle` (the
+model of the `tri.*` streams and of Props/C07/Triangle.lean, C19). -/
 private def triView (s : Style) (t : Joins.Tri) : StyledView :=
   let st : Joins.TriStyle := ⟨s.fill, s.stroke, s.width, triAlignOf s.align⟩
   { calls := fun _ => (Joins.triDraw t st).map (·.map (fun rc => Call.fillSolid rc.1 rc.2))
     pixels := fun _ => Joins.triPixels t st
-    bbox := fun _ => Joins.triStyledBoundingBox t st }
+    bbox := fun _ => Joins.triStyledBoundingBox t st
+    npoints := fun _ => (Triangle.points ⟨t.v1, t.v2, t.v3⟩).length
+    pbox := t.boundingBox
+    contains := some (Triangle.contains ⟨t.v1, t.v2, t.v3⟩) }
 
 /-! ### arcs and sectors
 
@@ -161,12 +186,17 @@ private def hookToks : Toks → Option Toks
 private def arcView (s : Style) (a : Arc) : StyledView :=
   { calls := fun _ => some (a.drawStyled s)
     pixels := fun _ => some (a.styledPixels s)
-    bbox := fun _ => some (a.styledBoundingBox s) }
+    bbox := fun _ => some (a.styledBoundingBox s)
+    npoints := fun _ => a.points.length
+    pbox := a.boundingBox }
 
 private def sectorView (s : Style) (bevel : SectorBevel) (x : Sector) : StyledView :=
   { calls := fun _ => some (x.drawStyled s bevel)
     pixels := fun _ => some (x.styledPixels s bevel)
-    bbox := fun _ => some (x.styledBoundingBox s) }
+    bbox := fun _ => some (x.styledBoundingBox s)
+    npoints := fun _ => x.points.length
+    pbox := x.boundingBox
+    contains := some x.contains }
 
 /-- `n` points from the token list. -/
 private def styledTakePts : Nat → Toks → List Pt × Toks
